@@ -118,22 +118,38 @@ func c29Run(c c29Case) *eng.Fail {
 
 func init() {
 	checks["C29"] = eng.Check{
-		Rule:        "format(text, indent, width) for EVERY string over {a, b, space} of length <=10 (thorough 12) without leading space x remaining width 1..5 x indentation 0..2 (+ widths 6..9 on the strings of length <=8), and every string of <=5 runes over {a, space, é (2 bytes), € (3 bytes)} x widths 1..6: termination (watchdog), every line = indentation tabs + at most width characters, the non-space characters equal the text's in order, a word is split only if longer than the width. Non-trivial = text that needs more than one line.",
+		Rule:        "format(text, indent, width) for EVERY string over {a, b, space} of length <=10 (thorough 14) without leading space x remaining width 1..5 x indentation 0..2 (+ widths 6..9 on the strings of length <=8), and every string of <=5 runes over {a, space, é (2 bytes), € (3 bytes)} x widths 1..6: termination (watchdog), every line = indentation tabs + at most width characters, the non-space characters equal the text's in order, a word is split only if longer than the width. Non-trivial = text that needs more than one line.",
 		Assumptions: []string{"single-line text without leading spaces and at least one character of room (the property's domain)"},
 		Run: func(r *eng.Run) {
 			maxLen := 10
 			if !r.Quick() {
-				maxLen = 12
+				maxLen = 14
 			}
-			var cur atomic.Value
+			// one "current case" slot per worker; when nothing progresses for 30 s every slot's
+			// case is re-run under a 20 s limit, twice, and only a case that again does not
+			// return is reported (format is a pure function, so re-running is safe)
+			slots := make([]atomic.Value, 64)
 			var tick atomic.Int64
-			go func() { // watchdog for non-termination
-				last := int64(-1)
+			go func() {
+				last, stale := int64(-1), 0
 				for {
 					time.Sleep(10 * time.Second)
 					t := tick.Load()
-					if t == last {
-						if c, ok := cur.Load().(c29Case); ok {
+					if t != last {
+						last, stale = t, 0
+						continue
+					}
+					if stale++; stale < 3 {
+						continue
+					}
+					stale = 0
+					for i := range slots {
+						c, ok := slots[i].Load().(c29Case)
+						if !ok {
+							continue
+						}
+						hangs := func() bool { return !eng.Within(20*time.Second, func() { c29Run(c) }) }
+						if hangs() && hangs() {
 							b, _ := json.Marshal(map[string]any{"property": "C29", "signature": "format does-not-terminate", "case": c})
 							os.MkdirAll(eng.VerifDir+"/replays/C29", 0o755)
 							path := eng.VerifDir + "/replays/C29/format_does-not-terminate.json"
@@ -142,7 +158,7 @@ func init() {
 							os.Exit(1)
 						}
 					}
-					last = t
+					eng.Hung.Store(false)
 				}
 			}()
 			alpha := []byte{'a', 'b', ' '}
@@ -150,8 +166,8 @@ func init() {
 			for i := 0; i < maxLen; i++ {
 				total *= 3
 			}
-			var rec func(s []byte)
-			rec = func(s []byte) {
+			var rec func(slot int, s []byte)
+			rec = func(slot int, s []byte) {
 				if len(s) > 0 {
 					for ind := 0; ind <= 2; ind++ {
 						maxW := 5
@@ -160,7 +176,7 @@ func init() {
 						}
 						for w := 1; w <= maxW; w++ {
 							c := c29Case{Text: string(s), Indent: ind, Width: w}
-							cur.Store(c)
+							slots[slot].Store(c)
 							tick.Add(1)
 							f := c29Run(c)
 							r.Eval(1)
@@ -179,7 +195,7 @@ func init() {
 						if len(s) == 0 && ch == ' ' {
 							continue
 						}
-						rec(append(s, ch))
+						rec(slot, append(s, ch))
 					}
 				}
 			}
@@ -202,7 +218,7 @@ func init() {
 					}
 				}
 			}
-			r.Par(len(prefixes), func(i int) { rec(append([]byte{}, prefixes[i]...)) })
+			r.Par(len(prefixes), func(i int) { rec(i, append([]byte{}, prefixes[i]...)) })
 			// multi-byte characters (2 and 3 bytes): every string of <=5 runes over {a, space, é, €}
 			// (the property counts what format counts: bytes)
 			runes := []string{"a", " ", "é", "€"}
@@ -212,7 +228,7 @@ func init() {
 					for ind := 0; ind <= 1; ind++ {
 						for w := 1; w <= 6; w++ {
 							c := c29Case{Text: s, Indent: ind, Width: w}
-							cur.Store(c)
+							slots[63].Store(c)
 							tick.Add(1)
 							f := c29Run(c)
 							r.Eval(1)
@@ -241,7 +257,11 @@ func init() {
 			if err := json.Unmarshal(raw, &c); err != nil {
 				panic(err)
 			}
-			return c29Run(c)
+			var f *eng.Fail
+			if !eng.Within(20*time.Second, func() { f = c29Run(c) }) {
+				return &eng.Fail{Sig: "format does-not-terminate", What: fmt.Sprintf("format(%q, %d, %d) does not return within 20 s", c.Text, c.Indent, c.Indent*8+c.Width), Case: c}
+			}
+			return f
 		},
 	}
 }
